@@ -221,7 +221,20 @@ def _module_level_func(m) -> Func:
     return Func(m, "<module>", m.tree, None)
 
 
+_AW_CACHE: Dict = {}
+_SCOPE_NODES: Dict = {}
+
+
 def attr_writes(P: Program, attr: str, include_mutation: bool = True, include_template: bool = True) -> List[Write]:
+    k = (id(P), attr, include_mutation, include_template)
+    hit = _AW_CACHE.get(k)
+    if hit is None or hit[0] is not P:
+        hit = (P, _attr_writes(P, attr, include_mutation, include_template))
+        _AW_CACHE[k] = hit
+    return list(hit[1])
+
+
+def _attr_writes(P: Program, attr: str, include_mutation: bool = True, include_template: bool = True) -> List[Write]:
     """Every site in the package that stores to `<anything>.attr` (Assign/AugAssign/AnnAssign/Delete, subscript stores
     `x.attr[k] = v`, `del x.attr[k]`, and — if include_mutation — mutating method calls `x.attr.append(..)`).
     setattr/__dict__ writes are reported with how='dynamic'."""
@@ -231,7 +244,15 @@ def attr_writes(P: Program, attr: str, include_mutation: bool = True, include_te
             continue
         scopes: List[Func] = view_funcs(P, m) + [_module_level_func(m)]
         for f in scopes:
-            it = list(own_nodes(f.node)) if f.qual != "<module>" else list(_module_nodes(m))
+            sk = id(f.node)
+            ch = _SCOPE_NODES.get(sk)
+            if ch is None or ch[0] is not f.node:
+                ch = (f.node, list(own_nodes(f.node)) if f.qual != "<module>" else list(_module_nodes(m)))
+                _SCOPE_NODES[sk] = ch
+            it = ch[1]
+            if not any(isinstance(n, ast.Attribute) and n.attr in (attr, "__dict__") for n in it) and not any(isinstance(n, ast.Constant) and n.value == attr for n in it) \
+                    and not any(isinstance(n, ast.Call) and norm.call_name(n) == "setattr" for n in it):
+                continue     # the field is not mentioned in this scope at all (and nothing is stored dynamically there)
             # local aliases of the field:  x = <obj>.attr   (then x[k] = v / x.append(..) write the field)
             aliases = {n.targets[0].id for n in it if isinstance(n, ast.Assign) and len(n.targets) == 1 and isinstance(n.targets[0], ast.Name)
                        and isinstance(n.value, ast.Attribute) and n.value.attr == attr}
@@ -482,13 +503,26 @@ def in_body(n: ast.AST, holder: ast.AST, fieldname: str = "body") -> bool:
     return any(cur is s for s in getattr(holder, fieldname, []))
 
 
+_WOF_CACHE: Dict = {}
+
+
 def write_once_fields(P: Program, rel: str, cls: str, selfname: str = "self") -> Dict[str, ast.expr]:
+    k = (id(P), rel, cls, selfname)
+    hit = _WOF_CACHE.get(k)
+    if hit is None or hit[0] is not P:
+        hit = (P, _write_once_fields(P, rel, cls, selfname))
+        _WOF_CACHE[k] = hit
+    return dict(hit[1])
+
+
+def _write_once_fields(P: Program, rel: str, cls: str, selfname: str = "self") -> Dict[str, ast.expr]:
     """A4: fields of `cls` whose only stores in the whole package are single plain assignments in __init__.
     Returns {'self.<field>': defining expression} (in terms of the constructor's parameters and other fields)."""
     c = P.cls(rel, cls)
     init = c.methods.get("__init__")
     if init is None:
         return {}
+    init = inline_helpers(P, init)     # as the rules see it (helpers, one-expression functions and named literals written out)
     cand: Dict[str, List[ast.expr]] = {}
     for n in own_nodes(init.node):
         if isinstance(n, (ast.Assign, ast.AnnAssign)):
@@ -646,9 +680,6 @@ def loop_env(lp: Optional[ast.AST]) -> Dict[str, ast.expr]:
 
 # -- helper inlining ("extract method" robustness) ------------------------------------------------------------
 
-KEEP_PUBLIC = {"mkregression_command", "list_command", "init_command", "gentrace_command", "run_command", "get_param_defaults", "compute_pipeline_stats",
-               "parse_args_with_defaults", "jitter_command", "snap_command", "sensitivity_command", "make_assignments", "update_state", "only",
-               "try_make_assignment", "get_pool_with_max_avail_ram", "run_simulator", "main"}
 KEEP_CALLS = {"_reconcile_consumed_ram", "_run_out_of_memory_killer", "_mark_completed", "_parse_row", "_pipeline_to_rows", "_parse_assignments",
               "_parse_suspensions", "_tick_generator", "_sensitivity_task"}
 
@@ -662,35 +693,169 @@ def _callers_of(P: Program, name: str) -> int:
     return n
 
 
-def _inlinable(P: Program, f: Func, c: ast.Call, allow_yield: bool = False) -> Optional[Func]:
-    """A same-class private method (self._m(...)) or same-module private function (_f(...)) with a single call site in the
-    package, positional/keyword arguments only, and `return` only as its last statement."""
+_PINNED: Optional[Set[str]] = None
+
+
+def pinned_public_names() -> Set[str]:
+    """Bare names of the public functions and methods of the tree the rules were written against (sa/pinned_names.json).  Rules are
+    anchored on those by name; a public function that is *not* among them was introduced by a later change and is, as far as the rules are
+    concerned, part of its callers (it is looked through like a private helper)."""
+    global _PINNED
+    if _PINNED is None:
+        import json, os
+        d = json.load(open(os.path.join(os.path.dirname(os.path.abspath(__file__)), "pinned_names.json")))
+        _PINNED = {q.split(".")[-1] for key, qs in d.items() if key != "__classes__" for q in qs if not q.split(".")[-1].startswith("_")}
+    return _PINNED
+
+
+def pinned_constant_names() -> Set[str]:
+    import json, os
+    return set(json.load(open(os.path.join(os.path.dirname(os.path.abspath(__file__)), "pinned_names.json"))).get("__constants__", []))
+
+
+_NEWCONST_CACHE: Dict = {}
+
+
+def _new_constants(P: Program) -> Dict[str, ast.expr]:
+    """module-level names that the pinned tree does not have, bound once in the whole package to a literal (number, string, None, ±number):
+    a named literal introduced by a later change stands for its value"""
+    k = id(P)
+    if k not in _NEWCONST_CACHE or _NEWCONST_CACHE[k][0] is not P:
+        pinned = pinned_constant_names()
+        cnt: Dict[str, int] = {}
+        val: Dict[str, ast.expr] = {}
+        for m in P.real_modules():
+            for st in m.tree.body:
+                if isinstance(st, (ast.Assign, ast.AnnAssign)):
+                    tg = st.targets if isinstance(st, ast.Assign) else [st.target]
+                    for t in tg:
+                        for x in ast.walk(t):
+                            if isinstance(x, ast.Name):
+                                cnt[x.id] = cnt.get(x.id, 0) + 1
+                    if len(tg) == 1 and isinstance(tg[0], ast.Name) and st.value is not None and _scalar_literal(st.value):
+                        val[tg[0].id] = st.value
+            for n in ast.walk(m.tree):
+                if isinstance(n, (ast.Global,)):
+                    for nm in n.names:
+                        cnt[nm] = cnt.get(nm, 0) + 5
+        out = {n: v for n, v in val.items() if cnt.get(n) == 1 and n not in pinned and not n.startswith("__")}
+        _NEWCONST_CACHE[k] = (P, out)
+    return _NEWCONST_CACHE[k][1]
+
+
+def _scalar_literal(e: ast.expr) -> bool:
+    if isinstance(e, ast.Constant) and (e.value is None or isinstance(e.value, (int, float, str))):
+        return True
+    return isinstance(e, ast.UnaryOp) and isinstance(e.op, (ast.USub, ast.UAdd)) and isinstance(e.operand, ast.Constant) and isinstance(e.operand.value, (int, float)) \
+        and not isinstance(e.operand.value, bool)
+
+
+def _named_literals(P: Program, f: Func) -> Func:
+    consts = _new_constants(P)
+    if not consts:
+        return f
+    local = {x.id for x in own_nodes(f.node) if isinstance(x, ast.Name) and isinstance(x.ctx, (ast.Store, ast.Del))} | set(f.params())
+    used = {x.id for x in own_nodes(f.node) if isinstance(x, ast.Name) and isinstance(x.ctx, ast.Load)} & set(consts) - local
+    if not used:
+        return f
+    node = norm.clone(f.node)
+
+    class T(ast.NodeTransformer):
+        def visit_Name(self, n: ast.Name):
+            if isinstance(n.ctx, ast.Load) and n.id in used:
+                return ast.copy_location(norm.clone(consts[n.id]), n)
+            return n
+    node = T().visit(node)
+    ast.fix_missing_locations(node)
+    for n in ast.walk(node):
+        for ch in ast.iter_child_nodes(n):
+            ch._parent = n  # type: ignore[attr-defined]
+    node._parent = getattr(f.node, "_parent", None)  # type: ignore[attr-defined]
+    return Func(f.mod, f.qual, node, f.cls)
+
+
+def pinned_class_names() -> Set[str]:
+    import json, os
+    return set(json.load(open(os.path.join(os.path.dirname(os.path.abspath(__file__)), "pinned_names.json"))).get("__classes__", []))
+
+
+_NEWDEF_CACHE: Dict = {}
+
+
+def _new_public_defs(P: Program) -> Tuple[Dict[str, List[Func]], Dict[str, List[Func]]]:
+    """(methods, module-level functions) with a public name that the pinned tree does not have, by bare name"""
+    k = id(P)
+    if k not in _NEWDEF_CACHE or _NEWDEF_CACHE[k][0] is not P:
+        pinned = pinned_public_names()
+        meths: Dict[str, List[Func]] = {}
+        funcs: Dict[str, List[Func]] = {}
+        for m in P.real_modules():
+            for f in m.funcs.values():
+                if f.name.startswith("_") or f.name in pinned:
+                    continue
+                if f.cls and f.qual == f"{f.cls}.{f.name}":
+                    meths.setdefault(f.name, []).append(f)
+                elif "." not in f.qual:
+                    funcs.setdefault(f.name, []).append(f)
+        _NEWDEF_CACHE[k] = (P, meths, funcs)
+    return _NEWDEF_CACHE[k][1], _NEWDEF_CACHE[k][2]
+
+
+def _kind_of_method(target: Func) -> str:
+    ds = target.decorators()
+    if not ds:
+        return "plain"
+    if len(ds) == 1 and isinstance(ds[0], ast.Name) and ds[0].id in ("staticmethod", "classmethod"):
+        return ds[0].id
+    return "other"
+
+
+def resolve_helper(P: Program, f: Func, c: ast.Call) -> Optional[Func]:
+    """The function a call is looked through to:  self._m(..) / Cls._m(..) (same class),  _f(..) (same module)  — private helpers — and,
+    for names that the pinned tree does not have: self.m(..), f(..) defined in this or exactly one other module (imported), x.m(..) where m
+    is defined by exactly one class of the package, and Cls.m(..) for a static / class method."""
     fn = c.func
     target: Optional[Func] = None
-    if isinstance(fn, ast.Attribute) and isinstance(fn.value, ast.Name) and f.cls and fn.value.id in ("self", f.cls):
-        cl = f.mod.classes.get(f.cls)
-        if cl and fn.attr in cl.methods:
-            target = cl.methods[fn.attr]
-            if fn.value.id == f.cls and not _is_static(target):
-                target = None
+    meths, funcs = _new_public_defs(P)
+    if isinstance(fn, ast.Attribute) and isinstance(fn.value, ast.Name) and f.cls and fn.value.id in ("self", f.cls) and f.mod.classes.get(f.cls) \
+            and fn.attr in f.mod.classes[f.cls].methods:
+        target = f.mod.classes[f.cls].methods[fn.attr]
+        if fn.value.id == f.cls and _kind_of_method(target) not in ("staticmethod", "classmethod"):
+            target = None
     elif isinstance(fn, ast.Name) and fn.id in f.mod.funcs and "." not in fn.id:
         target = f.mod.funcs[fn.id]
+    elif isinstance(fn, ast.Name) and len(funcs.get(fn.id, [])) == 1:
+        target = funcs[fn.id][0]           # a new public function of another module, imported by name
+    elif isinstance(fn, ast.Attribute) and len(meths.get(fn.attr, [])) == 1:
+        t = meths[fn.attr][0]
+        kind = _kind_of_method(t)
+        if kind in ("staticmethod", "classmethod"):
+            if isinstance(fn.value, ast.Name) and fn.value.id == t.cls:
+                target = t
+        elif kind == "plain" and not (isinstance(fn.value, ast.Name) and fn.value.id == t.cls):
+            target = t                     # x.m(..): a new method that only one class of the package defines
     if target is None or same_fn(target, f):
         return None
     if target.name.startswith("__"):
         return None
     if not target.name.startswith("_"):
-        # a public name is looked through only when it is a plain module-level function called by name that no rule is anchored on:
-        # the public functions of today's tree are analysed as functions of their own (KEEP_PUBLIC); a public helper that a change
-        # introduces is part of its caller as far as the rules are concerned
-        if not isinstance(fn, ast.Name) or target.name in KEEP_PUBLIC or target.decorators():
+        if target.name in pinned_public_names() or _kind_of_method(target) == "other":
             return None
+    return target
+
+
+def _inlinable(P: Program, f: Func, c: ast.Call, allow_yield: bool = False) -> Optional[Func]:
+    """A helper (see resolve_helper) called with positional/keyword arguments only whose `return`s can be eliminated."""
+    fn = c.func
+    target = resolve_helper(P, f, c)
+    if target is None:
+        return None
     if target.name in KEEP_CALLS:
         return None   # rules anchor on calls of these helpers by name
     if any(isinstance(x, ast.Starred) for x in c.args) or any(k.arg is None for k in c.keywords):
         return None
     a = target.node.args
-    if a.vararg or a.kwarg or a.kwonlyargs or (target.decorators() and not _is_static(target)):
+    if a.vararg or a.kwarg or a.kwonlyargs or _kind_of_method(target) == "other":
         return None
     body = target.node.body
     rets = [x for x in own_nodes(target.node) if isinstance(x, ast.Return)]
@@ -892,9 +1057,344 @@ def inline_helpers(P: Program, f: Func, depth: int = 2) -> Func:
     k = (id(P), id(f.node))
     hit = _INLINE_CACHE.get(k)
     if hit is None or hit[0] is not P or hit[1] is not f.node:
-        hit = (P, f.node, _inline_helpers(P, f, depth))
+        from .erase import erase
+        v = _inline_helpers(P, f, depth)
+        if v is not f:
+            v = _search_result_flow(v)               # what an Optional-returning search helper leaves behind
+        v = _named_literals(P, v)                    # a module constant the pinned tree does not have stands for its literal
+        v = inline_predicates(P, v)                  # side-effect-free one-expression helpers, wherever they are called (loop tests, arguments, ...)
+        v = erase(P, v)                              # local records (NamedTuples) written back as tuples / separate locals
+        hit = (P, f.node, dealias(_loop_field_aliases(_index_loops(_genexp_loops(_plain_assignments(v)))), subscripts=False))
         _INLINE_CACHE[k] = hit
     return hit[2]
+
+
+def _loop_field_aliases(f: Func) -> Func:
+    """Inside `for c in L:` a per-iteration local that merely names a field of the loop variable (`alloc = c.assignment`) is written out at
+    its uses (`alloc.cpu` -> `c.assignment.cpu`): only plain attribute chains rooted at the loop's own target, bound once in the loop, with
+    stable operands (loop_env) — reads and stores through the name are reads and stores of that field."""
+    loops = [n for n in own_nodes(f.node) if isinstance(n, (ast.For, ast.AsyncFor))]
+    plan = []
+    for lp in loops:
+        tnames = {x.id for x in ast.walk(lp.target) if isinstance(x, ast.Name)}
+        env = {}
+        for k, v in loop_env(lp).items():
+            r = v
+            ok = isinstance(v, ast.Attribute)
+            while isinstance(r, ast.Attribute):
+                r = r.value
+            if ok and isinstance(r, ast.Name) and r.id in tnames and k not in tnames:
+                env[k] = v
+        if env:
+            plan.append((lp, env))
+    if not plan:
+        return f
+    node = norm.clone(f.node)
+    by_orig = {id(a): b for a, b in zip(ast.walk(f.node), ast.walk(node))}    # the copy is structurally identical: same walk order
+    for lp, env in plan:
+        lp2 = by_orig.get(id(lp))
+        if lp2 is None:
+            continue
+
+        class T(ast.NodeTransformer):
+            def visit_Name(self, n: ast.Name):
+                if isinstance(n.ctx, ast.Load) and n.id in env:
+                    return ast.copy_location(norm.clone(env[n.id]), n)
+                return n
+
+            def visit_Lambda(self, n):
+                return n
+        lp2.body = [T().visit(st) for st in lp2.body]
+    ast.fix_missing_locations(node)
+    for n in ast.walk(node):
+        for ch in ast.iter_child_nodes(n):
+            ch._parent = n  # type: ignore[attr-defined]
+    node._parent = getattr(f.node, "_parent", None)  # type: ignore[attr-defined]
+    return Func(f.mod, f.qual, node, f.cls)
+
+
+def _index_loops(f: Func) -> Func:
+    """`for i in range(len(L)): x = L[i]; ...`  is  `for i, x in enumerate(L): ...`  when neither i, x nor L is bound again in the body and L is
+    not changed there (the index loop reads the length once, like enumerate would stop on the list it walks)."""
+    cands = []
+    for lp in [n for n in own_nodes(f.node) if isinstance(n, ast.For) and isinstance(n.target, ast.Name) and not n.orelse]:
+        it = lp.iter
+        if not (isinstance(it, ast.Call) and norm.is_name(it.func, "range") and len(it.args) == 1 and not it.keywords and isinstance(it.args[0], ast.Call)
+                and norm.is_name(it.args[0].func, "len") and len(it.args[0].args) == 1 and isinstance(it.args[0].args[0], ast.Name)):
+            continue
+        L, i = it.args[0].args[0].id, lp.target.id
+        st0 = lp.body[0] if lp.body else None
+        if not (isinstance(st0, ast.Assign) and len(st0.targets) == 1 and isinstance(st0.targets[0], ast.Name) and isinstance(st0.value, ast.Subscript)
+                and norm.is_name(st0.value.value, L) and norm.is_name(st0.value.slice, i)):
+            continue
+        x = st0.targets[0].id
+        if x in (L, i):
+            continue
+        bad = False
+        for st in lp.body[1:]:
+            for n in ast.walk(st):
+                if isinstance(n, ast.Name) and isinstance(n.ctx, (ast.Store, ast.Del)) and n.id in (L, i, x):
+                    bad = True
+                if isinstance(n, ast.Call) and isinstance(n.func, ast.Attribute) and norm.is_name(n.func.value, L) and n.func.attr in MUTATORS:
+                    bad = True
+                if isinstance(n, ast.Subscript) and norm.is_name(n.value, L) and isinstance(n.ctx, (ast.Store, ast.Del)):
+                    bad = True
+        if not bad:
+            cands.append(lp)
+    if not cands:
+        return f
+    node = norm.clone(f.node)
+    m = {id(a): b for a, b in zip(ast.walk(f.node), ast.walk(node))}
+    for lp in cands:
+        lp2 = m[id(lp)]
+        L, i, x = lp.iter.args[0].args[0].id, lp.target.id, lp.body[0].targets[0].id
+        lp2.target = ast.Tuple(elts=[ast.Name(id=i, ctx=ast.Store()), ast.Name(id=x, ctx=ast.Store())], ctx=ast.Store())
+        lp2.iter = ast.Call(func=ast.Name(id="enumerate", ctx=ast.Load()), args=[ast.Name(id=L, ctx=ast.Load())], keywords=[])
+        lp2.body = lp2.body[1:] or [ast.Pass()]
+    ast.fix_missing_locations(node)
+    for n in ast.walk(node):
+        for ch in ast.iter_child_nodes(n):
+            ch._parent = n  # type: ignore[attr-defined]
+    node._parent = getattr(f.node, "_parent", None)  # type: ignore[attr-defined]
+    return Func(f.mod, f.qual, node, f.cls)
+
+
+def _block_lists(n: ast.AST):
+    for fld in ("body", "orelse", "finalbody"):
+        b = getattr(n, fld, None)
+        if isinstance(b, list) and b and isinstance(b[0], ast.stmt):
+            yield fld, b
+    if isinstance(n, ast.Try):
+        for h in n.handlers:
+            yield "body", h.body
+
+
+def _has_loop_jump(stmts: List[ast.stmt]) -> bool:
+    """a break / continue that would bind to a loop outside these statements"""
+    def walk(st, depth):
+        if isinstance(st, (ast.Break, ast.Continue)) and depth == 0:
+            return True
+        if isinstance(st, (ast.FunctionDef, ast.AsyncFunctionDef, ast.ClassDef, ast.Lambda)):
+            return False
+        d2 = depth + 1 if isinstance(st, (ast.For, ast.While, ast.AsyncFor)) else depth
+        for fld, b in _block_lists(st):
+            dd = depth if (isinstance(st, (ast.For, ast.While, ast.AsyncFor)) and fld == "orelse") else d2
+            if any(walk(x, dd) for x in b):
+                return True
+        return False
+    return any(walk(st, 0) for st in stmts)
+
+
+def _search_result_flow(f: Func) -> Func:
+    """What an Optional-returning search helper leaves behind once it is looked through:
+
+        while ..:                                   while ..:
+            ...                                         ...
+            X = V; break                                X = V; REST; break
+        else:                          ==           else:
+            X = None                                    X = None; JUMP
+        if X is None: JUMP
+        REST                       (REST to the end of the block, without break/continue of its own level; JUMP = continue / return / raise)
+
+    followed by  `a, b = X` right after `X = (va, vb)`  ->  `a = va; b = vb`,  and a copy `x = h__iN` of a looked-through helper's local into a
+    name that has no other binding -> the helper's local is called x from the start."""
+    node = norm.clone(f.node)
+    changed = False
+    again = True
+    rounds = 0
+    while again and rounds < 6:
+        again = False
+        rounds += 1
+        for owner in list(ast.walk(node)):
+            for fld, blk in list(_block_lists(owner)):
+                for i, lp in enumerate(blk):
+                    if not (isinstance(lp, (ast.While, ast.For)) and lp.orelse and i + 1 < len(blk)):
+                        continue
+                    guard = blk[i + 1]
+                    if not (isinstance(guard, ast.If) and not guard.orelse and isinstance(guard.test, ast.Compare) and len(guard.test.ops) == 1
+                            and isinstance(guard.test.ops[0], ast.Is) and isinstance(guard.test.left, ast.Name)
+                            and isinstance(guard.test.comparators[0], ast.Constant) and guard.test.comparators[0].value is None
+                            and len(guard.body) >= 1 and isinstance(guard.body[-1], (ast.Continue, ast.Return, ast.Raise))
+                            and not _has_loop_jump(guard.body[:-1])):
+                        continue
+                    X = guard.test.left.id
+                    # else clause: ends with X = None, nothing else binds X there
+                    el = lp.orelse
+                    if not (isinstance(el[-1], ast.Assign) and len(el[-1].targets) == 1 and norm.is_name(el[-1].targets[0], X)
+                            and isinstance(el[-1].value, ast.Constant) and el[-1].value.value is None):
+                        continue
+                    # body: exactly one `X = V; break`, V visibly not None; no other break of this loop; no other binding of X in the loop
+                    sites = []
+
+                    def scan(stmts, depth):
+                        for k, st in enumerate(stmts):
+                            if isinstance(st, ast.Break) and depth == 0:
+                                prev = stmts[k - 1] if k > 0 else None
+                                sites.append((stmts, k, prev))
+                            if isinstance(st, (ast.FunctionDef, ast.AsyncFunctionDef, ast.ClassDef)):
+                                continue
+                            for fl2, b2 in _block_lists(st):
+                                d2 = depth + 1 if isinstance(st, (ast.For, ast.While, ast.AsyncFor)) and fl2 != "orelse" else depth
+                                scan(b2, d2)
+                    scan(lp.body, 0)
+                    if len(sites) != 1:
+                        continue
+                    stmts_b, kb, prev = sites[0]
+                    if not (isinstance(prev, ast.Assign) and len(prev.targets) == 1 and norm.is_name(prev.targets[0], X)
+                            and isinstance(prev.value, (ast.Tuple, ast.List, ast.Dict, ast.Call, ast.JoinedStr))
+                            and not (isinstance(prev.value, ast.Call) and not (isinstance(prev.value.func, ast.Name) and prev.value.func.id[:1].isupper()))):
+                        continue
+                    binds = [x for x in ast.walk(lp) if isinstance(x, ast.Name) and x.id == X and isinstance(x.ctx, (ast.Store, ast.Del))]
+                    if len(binds) != 2:
+                        continue
+                    rest = blk[i + 2:]
+                    if _has_loop_jump(rest):
+                        continue
+                    # move
+                    stmts_b[kb:kb] = rest
+                    lp.orelse = el + guard.body
+                    del blk[i + 1:]
+                    again = changed = True
+                    break
+                if again:
+                    break
+            if again:
+                break
+    # a, b = X  right after  X = (va, vb)
+    for owner in list(ast.walk(node)):
+        for fld, blk in list(_block_lists(owner)):
+            k = 1
+            while k < len(blk):
+                st, pv = blk[k], blk[k - 1]
+                if isinstance(st, ast.Assign) and len(st.targets) == 1 and isinstance(st.targets[0], ast.Tuple) and isinstance(st.value, ast.Name) \
+                        and isinstance(pv, ast.Assign) and len(pv.targets) == 1 and norm.is_name(pv.targets[0], st.value.id) and isinstance(pv.value, ast.Tuple) \
+                        and len(pv.value.elts) == len(st.targets[0].elts) and all(isinstance(t, ast.Name) for t in st.targets[0].elts) \
+                        and all(isinstance(v, ast.Name) for v in pv.value.elts):
+                    new = [ast.copy_location(ast.Assign(targets=[t], value=norm.clone(v)), st) for t, v in zip(st.targets[0].elts, pv.value.elts)]
+                    blk[k:k + 1] = new
+                    changed = True
+                    k += len(new)
+                    continue
+                k += 1
+    if not changed:
+        return f
+    # copies of helper locals:  x = h__iN   (x bound nowhere else, every load of x after the copy)  ->  h__iN is x
+    ast.fix_missing_locations(node)
+    order = source_order(node)
+    for cp in [n for n in ast.walk(node) if isinstance(n, ast.Assign) and len(n.targets) == 1 and isinstance(n.targets[0], ast.Name)
+               and isinstance(n.value, ast.Name) and "__i" in n.value.id]:
+        x, y = cp.targets[0].id, cp.value.id
+        xs = [n for n in ast.walk(node) if isinstance(n, ast.Name) and n.id == x]
+        if sum(1 for n in xs if isinstance(n.ctx, (ast.Store, ast.Del))) != 1 or x in f.params():
+            continue
+        if any(isinstance(n.ctx, ast.Load) and order.get(id(n), (0, 0))[0] < order.get(id(cp), (0, 0))[0] for n in xs):
+            continue
+        for n in ast.walk(node):
+            if isinstance(n, ast.Name) and n.id == y:
+                n.id = x
+        # the copy became  x = x: drop it
+        for owner in ast.walk(node):
+            for fld, blk in _block_lists(owner):
+                if any(b is cp for b in blk):
+                    blk[:] = [b for b in blk if b is not cp] or [ast.Pass()]
+    ast.fix_missing_locations(node)
+    for n in ast.walk(node):
+        for ch in ast.iter_child_nodes(n):
+            ch._parent = n  # type: ignore[attr-defined]
+    node._parent = getattr(f.node, "_parent", None)  # type: ignore[attr-defined]
+    return Func(f.mod, f.qual, node, f.cls)
+
+
+def _genexp_loops(f: Func) -> Func:
+    """`X = (E(v) for v in it)` bound once and consumed by exactly one `for r in X:` loop (no other use of X) is that loop over `it` with
+    `r = E(v)` as its first statement: the generator expression only delays the evaluation to the moment the loop asks for the element."""
+    todo = []
+    for d in [n for n in own_nodes(f.node) if isinstance(n, ast.Assign) and len(n.targets) == 1 and isinstance(n.targets[0], ast.Name) and isinstance(n.value, ast.GeneratorExp)]:
+        X = d.targets[0].id
+        ge = d.value
+        if len(ge.generators) != 1 or ge.generators[0].ifs or ge.generators[0].is_async:
+            continue
+        stores = [n for n in own_nodes(f.node) if isinstance(n, ast.Name) and n.id == X and isinstance(n.ctx, (ast.Store, ast.Del))]
+        loads = [n for n in own_nodes(f.node) if isinstance(n, ast.Name) and n.id == X and isinstance(n.ctx, ast.Load)]
+        if len(stores) != 1 or len(loads) != 1:
+            continue
+        lp = parent(loads[0])
+        if not (isinstance(lp, ast.For) and lp.iter is loads[0] and isinstance(lp.target, ast.Name) and not lp.orelse):
+            continue
+        # the loop must not sit inside another loop that the definition is outside of (the generator would be exhausted the second time round)
+        anc_l, q = [], parent(lp)
+        while q is not None and q is not f.node:
+            if isinstance(q, (ast.For, ast.While)):
+                anc_l.append(q)
+            q = parent(q)
+        anc_d, q = [], parent(d)
+        while q is not None and q is not f.node:
+            if isinstance(q, (ast.For, ast.While)):
+                anc_d.append(q)
+            q = parent(q)
+        if [id(x) for x in anc_l] != [id(x) for x in anc_d]:
+            continue
+        gnames = {x.id for x in ast.walk(ge.generators[0].target) if isinstance(x, ast.Name)}
+        used = {x.id for x in own_nodes(f.node) if isinstance(x, ast.Name) and not any(x is y for y in ast.walk(ge))}
+        if gnames & used:
+            continue    # the comprehension variable would leak into the function's scope under a name that is in use
+        todo.append((d, lp))
+    if not todo:
+        return f
+    node = norm.clone(f.node)
+    m = {id(a): b for a, b in zip(ast.walk(f.node), ast.walk(node))}
+    for d, lp in todo:
+        d2, lp2 = m[id(d)], m[id(lp)]
+        ge = d2.value
+        first = ast.copy_location(ast.Assign(targets=[ast.Name(id=lp2.target.id, ctx=ast.Store())], value=ge.elt), lp2)
+        lp2.target = ge.generators[0].target
+        for x in ast.walk(lp2.target):
+            if isinstance(x, (ast.Name, ast.Tuple, ast.List)):
+                x.ctx = ast.Store()
+        lp2.iter = ge.generators[0].iter
+        lp2.body = [first] + lp2.body
+        par = m[id(parent(d))]
+        for fld in ("body", "orelse", "finalbody"):
+            b = getattr(par, fld, None)
+            if isinstance(b, list) and any(x is d2 for x in b):
+                setattr(par, fld, [x for x in b if x is not d2] or [ast.Pass()])
+    ast.fix_missing_locations(node)
+    for n in ast.walk(node):
+        for ch in ast.iter_child_nodes(n):
+            ch._parent = n  # type: ignore[attr-defined]
+    node._parent = getattr(f.node, "_parent", None)  # type: ignore[attr-defined]
+    return Func(f.mod, f.qual, node, f.cls)
+
+
+def _plain_assignments(f: Func) -> Func:
+    """`x: T = e` on a local name is `x = e` for the rules (a bare `x: T` declares nothing at run time and is dropped)."""
+    if not any(isinstance(n, ast.AnnAssign) and isinstance(n.target, ast.Name) for n in own_nodes(f.node)):
+        return f
+    node = norm.clone(f.node) if not getattr(f.node, "_is_view_copy", False) else f.node
+
+    class T(ast.NodeTransformer):
+        def visit_AnnAssign(self, n: ast.AnnAssign):
+            if isinstance(n.target, ast.Name):
+                if n.value is None:
+                    return ast.copy_location(ast.Pass(), n)
+                return ast.copy_location(ast.Assign(targets=[n.target], value=n.value), n)
+            return n
+
+        def visit_FunctionDef(self, n):
+            return n if n is not node else self.generic_visit(n)
+
+        def visit_Lambda(self, n):
+            return n
+
+        def visit_ClassDef(self, n):
+            return n
+    node = T().visit(node)
+    ast.fix_missing_locations(node)
+    for n in ast.walk(node):
+        for ch in ast.iter_child_nodes(n):
+            ch._parent = n  # type: ignore[attr-defined]
+    node._parent = getattr(f.node, "_parent", None)  # type: ignore[attr-defined]
+    return Func(f.mod, f.qual, node, f.cls)
 
 
 def _inline_helpers(P: Program, f: Func, depth: int = 2) -> Func:
@@ -1278,16 +1778,10 @@ def inline_predicates(P: Program, f: Func, depth: int = 2) -> Func:
         def visit_Call(self, c: ast.Call):
             c = self.generic_visit(c)
             fn = c.func
-            target = None
-            if isinstance(fn, ast.Attribute) and norm.is_name(fn.value, "self") and f.cls:
-                cl = f.mod.classes.get(f.cls)
-                if cl and fn.attr in cl.methods:
-                    target = cl.methods[fn.attr]
-            elif isinstance(fn, ast.Name) and fn.id in f.mod.funcs and "." not in fn.id:
-                target = f.mod.funcs[fn.id]
-            if target is None or same_fn(target, f) or not target.name.startswith("_") or target.name.startswith("__") or target.name in KEEP_CALLS:
+            target = resolve_helper(P, f, c)
+            if target is None or target.name in KEEP_CALLS:
                 return c
-            if c.keywords or any(isinstance(a, ast.Starred) for a in c.args) or target.decorators():
+            if c.keywords or any(isinstance(a, ast.Starred) for a in c.args) or _kind_of_method(target) == "other":
                 return c
             body = [s for s in target.node.body if not (isinstance(s, ast.Expr) and isinstance(s.value, ast.Constant)) and not isinstance(s, ast.Pass)]
             if len(body) != 1 or not isinstance(body[0], ast.Return) or body[0].value is None:
@@ -1299,7 +1793,7 @@ def inline_predicates(P: Program, f: Func, depth: int = 2) -> Func:
                 return c
             params = target.params()
             env: Dict[str, ast.expr] = {}
-            if isinstance(fn, ast.Attribute):
+            if isinstance(fn, ast.Attribute) and _kind_of_method(target) != "staticmethod":
                 env[params[0]] = fn.value
                 params = params[1:]
             if len(params) != len(c.args):
@@ -1361,7 +1855,7 @@ def view_funcs(P: Program, m) -> List[Func]:
             mf = _module_level_func(mm)
             still_called |= {norm.call_name(c) for c in _module_nodes(mm) if isinstance(c, ast.Call)} - {None}
             views[mm.rel] = lst
-        absorbed = {n for n in inlined_somewhere if n not in still_called and n.startswith("_") and not n.startswith("__")}
+        absorbed = {n for n in inlined_somewhere if n not in still_called and not n.startswith("__") and (n.startswith("_") or n not in pinned_public_names())}
         _VIEW_CACHE[k] = (P, {rel: [v for f, v in lst if f.name not in absorbed] for rel, lst in views.items()})
     return _VIEW_CACHE[k][1].get(m.rel, [])
 
@@ -1390,11 +1884,125 @@ def _root_depth(e: ast.expr) -> Tuple[Optional[str], int]:
     return (e.id if isinstance(e, ast.Name) else None), dp
 
 
-def dealias(f: Func) -> Func:
+def prefix_counter_to_list(f: Func) -> Func:
+    """`n = 0; for x in Q: ...; n += 1; ...; del Q[:n]`  ==  `D = []; for x in Q: ...; D.append(x); ...; for y in D: Q.remove(y)` when the
+    count is stepped in every iteration that reaches it (no `continue` before it: the iterations that are counted are the first n) and Q is not
+    touched in between.  The deferred-removal rules are stated on the list form; the counter form is rewritten into it."""
+    from .cfg import CFG
+    hit = _PREFIX_CACHE.get(id(f.node))
+    if hit is not None and hit[0] is f.node:
+        return hit[1]
+    out = _prefix_counter_to_list(f)
+    _PREFIX_CACHE[id(f.node)] = (f.node, out)
+    return out
+
+
+_PREFIX_CACHE: Dict = {}
+
+
+def _prefix_counter_to_list(f: Func) -> Func:
+    from .cfg import CFG
+    todo = []
+    for lp in [n for n in own_nodes(f.node) if isinstance(n, ast.For) and isinstance(n.iter, ast.Name) and isinstance(n.target, ast.Name) and not n.orelse]:
+        blk = None
+        par = parent(lp)
+        for fld in ("body", "orelse", "finalbody"):
+            b = getattr(par, fld, None)
+            if isinstance(b, list) and any(x is lp for x in b):
+                blk = b
+        if blk is None:
+            continue
+        i = [k for k, x in enumerate(blk) if x is lp][0]
+        Q = lp.iter.id
+        # del Q[:n] after the loop, in the same block
+        dels = [(k, x) for k, x in enumerate(blk[i + 1:], i + 1) if isinstance(x, ast.Delete) and len(x.targets) == 1 and isinstance(x.targets[0], ast.Subscript)
+                and norm.is_name(x.targets[0].value, Q) and isinstance(x.targets[0].slice, ast.Slice) and x.targets[0].slice.lower is None
+                and x.targets[0].slice.step is None and isinstance(x.targets[0].slice.upper, ast.Name)]
+        if len(dels) != 1:
+            continue
+        kdel, dl = dels[0]
+        n = dl.targets[0].slice.upper.id
+        inits = [(k, x) for k, x in enumerate(blk[:i]) if isinstance(x, ast.Assign) and len(x.targets) == 1 and norm.is_name(x.targets[0], n)
+                 and isinstance(x.value, ast.Constant) and x.value.value == 0 and not isinstance(x.value.value, bool)]
+        if len(inits) != 1:
+            continue
+        kinit, ini = inits[0]
+        writes = [x for x in own_nodes(f.node) if isinstance(x, ast.Name) and x.id == n and isinstance(x.ctx, ast.Store)]
+        incs = [x for x in lp.body if isinstance(x, ast.AugAssign) and norm.is_name(x.target, n) and isinstance(x.op, ast.Add) and isinstance(x.value, ast.Constant) and x.value.value == 1]
+        loads = [x for x in own_nodes(f.node) if isinstance(x, ast.Name) and x.id == n and isinstance(x.ctx, ast.Load)]
+        if len(incs) != 1 or len(writes) != 2 or len(loads) != 1:     # init + the step (an AugAssign target is one Store); read only by the del
+            continue
+        inc = incs[0]
+        # Q untouched in the loop and between loop and del; statements between init and loop do not matter for n (no other writes)
+        def touches_q(stmts):
+            for st in stmts:
+                for x in ast.walk(st):
+                    if isinstance(x, ast.Call) and isinstance(x.func, ast.Attribute) and norm.is_name(x.func.value, Q) and x.func.attr in MUTATORS:
+                        return True
+                    if isinstance(x, (ast.Subscript,)) and norm.is_name(x.value, Q) and isinstance(x.ctx, (ast.Store, ast.Del)):
+                        return True
+                    if isinstance(x, ast.Name) and x.id == Q and isinstance(x.ctx, ast.Store):
+                        return True
+            return False
+        if touches_q(lp.body) or touches_q(blk[i + 1:kdel]):
+            continue
+        # every iteration that does not leave the loop before the step passes the step: no path header -> header (next iteration) avoiding it
+        try:
+            g = CFG(f.node)
+            hid = g.node_of(lp).id
+            inside = set()
+            for st in ast.walk(lp):
+                if isinstance(st, ast.stmt) and st is not lp:
+                    try:
+                        inside.add(g.node_of(st).id)
+                    except Exception:
+                        pass
+            outside = {nd.id for nd in g.nodes} - inside - {hid}
+            skip = g.path_avoiding(hid, {hid}, {g.node_of(inc).id} | outside, edge_ok=lambda a, b, lab, hid=hid: not (a == hid and lab == "done"))
+        except Exception:
+            continue
+        if skip is not None:
+            continue
+        todo.append((lp, ini, inc, dl, n, Q))
+    if not todo:
+        return f
+    node = norm.clone(f.node)
+    m = {id(a): b for a, b in zip(ast.walk(f.node), ast.walk(node))}
+    for lp, ini, inc, dl, n, Q in todo:
+        lp2, ini2, inc2, dl2 = m[id(lp)], m[id(ini)], m[id(inc)], m[id(dl)]
+        D = f"{n}__taken"
+        ini2.value = ast.List(elts=[], ctx=ast.Load())
+        ini2.targets = [ast.Name(id=D, ctx=ast.Store())]
+        new_inc = ast.copy_location(ast.Expr(value=ast.Call(func=ast.Attribute(value=ast.Name(id=D, ctx=ast.Load()), attr="append", ctx=ast.Load()),
+                                                             args=[ast.Name(id=lp2.target.id, ctx=ast.Load())], keywords=[])), inc2)
+        lp2.body = [new_inc if x is inc2 else x for x in lp2.body]
+        rl = ast.copy_location(ast.For(target=ast.Name(id=f"{n}__j", ctx=ast.Store()), iter=ast.Name(id=D, ctx=ast.Load()),
+                                       body=[ast.Expr(value=ast.Call(func=ast.Attribute(value=ast.Name(id=Q, ctx=ast.Load()), attr="remove", ctx=ast.Load()),
+                                                                     args=[ast.Name(id=f"{n}__j", ctx=ast.Load())], keywords=[]))], orelse=[]), dl2)
+        par2 = m[id(parent(dl))]
+        for fld in ("body", "orelse", "finalbody"):
+            b = getattr(par2, fld, None)
+            if isinstance(b, list) and any(x is dl2 for x in b):
+                setattr(par2, fld, [rl if x is dl2 else x for x in b])
+    ast.fix_missing_locations(node)
+    for x in ast.walk(node):
+        for ch in ast.iter_child_nodes(x):
+            ch._parent = x  # type: ignore[attr-defined]
+    node._parent = getattr(f.node, "_parent", None)  # type: ignore[attr-defined]
+    return Func(f.mod, f.qual, node, f.cls)
+
+
+def _pure_attr_chain_of_param(e: ast.expr, params: Set[str]) -> bool:
+    while isinstance(e, ast.Attribute):
+        e = e.value
+    return isinstance(e, ast.Name) and e.id in params
+
+
+def dealias(f: Func, subscripts: bool = True) -> Func:
     """A copy of f in which a local bound once to an existing object (`d = table[i]`, `pool = self.pools[i]`, operands not re-bound
     before the uses) is replaced by that expression at every use, so that reads and stores through the alias are seen as reads and
     stores of the object itself; f if there is no such local."""
-    k = id(f.node)
+    k = (id(f.node), subscripts)
     if k in _DEALIAS_CACHE and _DEALIAS_CACHE[k][0] is f.node:
         return _DEALIAS_CACHE[k][1]
     binds: Dict[str, List[ast.AST]] = {}
@@ -1440,7 +2048,18 @@ def dealias(f: Func) -> Func:
         if not (isinstance(d, ast.Assign) and len(d.targets) == 1 and norm.is_name(d.targets[0], name)):
             continue
         v = d.value
-        if not (isinstance(v, ast.Subscript) and _is_alias_term(v)) or name in norm.names_in(v):
+        if isinstance(v, ast.Attribute) and _pure_attr_chain_of_param(v, params) and name not in norm.names_in(v):
+            # `tracked = s.other_pipelines` used as a container (filled / emptied through the name): the object the parameter carries.
+            # Only when the name is mutated through (otherwise it is a value and single_defs serves), and the field itself is never re-bound here.
+            vt = norm.U(v)
+            mutated_through = any(r_ == name for (r_, dp, st) in loc_stores)
+            rebound = any(isinstance(n, (ast.Assign, ast.AugAssign, ast.AnnAssign, ast.Delete)) and any(
+                norm.U(t) == vt or vt.startswith(norm.U(t) + ".") for t in (n.targets if isinstance(n, (ast.Assign, ast.Delete)) else [n.target]))
+                for n in own_nodes(f.node))
+            if mutated_through and not rebound:
+                env[name] = v
+            continue
+        if not subscripts or not (isinstance(v, ast.Subscript) and _is_alias_term(v)) or name in norm.names_in(v):
             continue     # only element lookups `table[i]` / `a.b[i]`: plain `x = y.z` locals are values more often than objects
         # the location read must not be stored to (directly, or by re-binding / mutating a container on the way to it) between the
         # definition and a use; stores *below* it (table[i]["k"] -= 1 for the alias table[i]) go through the alias and are fine
